@@ -235,11 +235,27 @@ func (e *erasureCodingPartStore) PutPart(ctx context.Context, tx database.Tx, pa
 	pipeReaders := make([]*io.PipeReader, e.totalShards)
 	pipeWriters := make([]*io.PipeWriter, e.totalShards)
 	errCh := make(chan error, e.totalShards)
+	// Whatever way this function returns, every shard writer must come to an
+	// end: closing a pipe writer twice is harmless, leaving one open blocks the
+	// shard goroutine that reads from it forever.
+	defer func() {
+		for _, pw := range pipeWriters {
+			if pw != nil {
+				_ = pw.CloseWithError(errors.New("erasure-coded write aborted"))
+			}
+		}
+	}()
 	for i := 0; i < e.totalShards; i++ {
 		pr, pw := io.Pipe()
 		pipeReaders[i], pipeWriters[i] = pr, pw
 		go func(idx int) {
-			errCh <- e.partStores[idx].PutPart(ctx, tx, partId, pr)
+			err := e.partStores[idx].PutPart(ctx, tx, partId, pr)
+			if err != nil {
+				// A shard store that fails without draining its input would
+				// otherwise block the stripe loop in Write forever.
+				_ = pr.CloseWithError(err)
+			}
+			errCh <- err
 		}(i)
 		if _, err := pipeWriters[i].Write(e.shardHeader(i)); err != nil {
 			return err
